@@ -184,6 +184,14 @@ def measure_pairs(ea, eb, form, storage="c_float64", single="1d"):
         raw[key] = (value, np.array(value, dtype=float, copy=True))
         out[key] = as1d(value)
 
+    # every option value on the caller's own arrays: calls with a symmetry order > 1 come first (their values are not part
+    # of C06; a single 1-D triple is not accepted there), the judged default calls follow on the SAME argument objects
+    for fn_, kw_ in ((geom.angular_distance, {"c_symmetry": 3}), (geom.compare_rotations, {"c_symmetry": 4}),
+                     (geom.cone_inplane_distance, {"c_symmetry": 2}), (geom.angular_distance, {"c_symmetry": 6, "convention": "zxz"})):
+        try:
+            fn_(A, B, **kw_)
+        except Exception:
+            pass
     keep("angular_distance", geom.angular_distance(A, B)[0])
     ci = geom.cone_inplane_distance(A, B)
     keep("cone_inplane_distance.cone", ci[0])
@@ -462,7 +470,7 @@ def gen_pair_case(rng, idx, family=None):
     ma = geo.zxz_matrix(*a)
     same = False
     if cls == "near":
-        b = euler_of_matrix(ma @ axis_angle_matrix(rand_axis(rng), rng.choice([1e-7, 1e-7, 1e-6, 1e-4])))
+        b = euler_of_matrix(ma @ axis_angle_matrix(rand_axis(rng), rng.choice([1e-7, 1e-7, 1e-6, 1e-4, 2e-5, 3e-4, 8e-4])))       # down to 1e-7 rad, up to 0.05 degree
     elif cls == "antipodal":
         b = euler_of_matrix(ma @ axis_angle_matrix(rand_axis(rng), math.pi))
     elif cls == "gimbal":
